@@ -807,9 +807,35 @@ func c07Gen(r *rand.Rand, tier string, idx int, flavour string) []string {
 		return []int{1, c - 1, c, c + 1, 2*c + 1, 1 + r.Intn(c+3)}[r.Intn(6)]
 	}
 	n := 6 + r.Intn(40)
+	motif := r.Intn(4) == 0
 	for i := 0; i < n; i++ {
 		id := ids[r.Intn(len(ids))]
 		x := []string{"a", "a", "b"}[r.Intn(3)]
+		if motif && r.Intn(n) < 3 {
+			// a stream that changes transport: share memory, then (memory exhausted) the connection, then memory is
+			// available again - while an earlier queue notification is still undelivered. Order and close-after-data
+			// must survive the switch.
+			motif = false
+			_, nums := c06Classes(cls)
+			if r.Intn(3) > 0 {
+				ops = append(ops, fmt.Sprintf("wb %s %d %s", x, id, c06RandBytes(r, 1+r.Intn(caps[0]), &seq)), fmt.Sprintf("flush %s %d", x, id))
+			}
+			for ci := range caps {
+				ops = append(ops, fmt.Sprintf("take %d %d", ci, nums[ci]))
+			}
+			ops = append(ops, fmt.Sprintf("wb %s %d %s", x, id, c06RandBytes(r, sz(), &seq)), fmt.Sprintf("flush %s %d", x, id))
+			for ci := range caps {
+				ops = append(ops, fmt.Sprintf("give %d %d", ci, nums[ci]))
+			}
+			ops = append(ops, fmt.Sprintf("wb %s %d %s", x, id, c06RandBytes(r, 1+r.Intn(caps[0]), &seq)), fmt.Sprintf("flush %s %d", x, id))
+			if r.Intn(2) == 0 {
+				ops = append(ops, fmt.Sprintf("close %s %d", x, id))
+			}
+			for k := 1 + r.Intn(4); k > 0; k-- {
+				ops = append(ops, "deliver "+peerName(x), fmt.Sprintf("rb %s %d %d", peerName(x), id, 1+r.Intn(2*caps[0])))
+			}
+			continue
+		}
 		switch k := r.Intn(24); {
 		case k < 5:
 			ops = append(ops, fmt.Sprintf("wb %s %d %s", x, id, c06RandBytes(r, sz(), &seq)))
